@@ -91,6 +91,8 @@ struct upipe_ts_pese {
     unsigned int max_urefs;
     /** list of blockers (used during udeal) */
     struct uchain blockers;
+    /** true while the held urefs are being output */
+    bool draining;
 
     /** PES stream ID */
     uint8_t pes_id;
@@ -147,6 +149,7 @@ static struct upipe *upipe_ts_pese_alloc(struct upipe_mgr *mgr,
     upipe_ts_pese->pes_id = 0;
     upipe_ts_pese->pes_header_size = 0;
     upipe_ts_pese->pes_min_duration = 0;
+    upipe_ts_pese->draining = false;
     ulist_init(&upipe_ts_pese->next_pes);
     upipe_ts_pese->next_pes_size = 0;
     upipe_ts_pese->next_pes_duration = 0;
@@ -333,8 +336,15 @@ static int upipe_ts_pese_check(struct upipe *upipe, struct uref *flow_format)
     if (upipe_ts_pese->flow_def == NULL)
         return UBASE_ERR_NONE;
 
+    /* a ubuf manager provided while a held flow definition is being handled:
+     * the loop below carries on with the next held urefs */
+    if (upipe_ts_pese->draining)
+        return UBASE_ERR_NONE;
+
     bool was_buffered = !upipe_ts_pese_check_input(upipe);
+    upipe_ts_pese->draining = true;
     upipe_ts_pese_output_input(upipe);
+    upipe_ts_pese->draining = false;
     upipe_ts_pese_unblock_input(upipe);
     if (was_buffered && upipe_ts_pese_check_input(upipe)) {
         /* All packets have been output, release again the pipe that has been
